@@ -113,6 +113,10 @@ def units(tier, seed):
     else:
         for k in range(n_words // per):
             u.append({"kind": "oD_words", "seed": f"C15:{seed}:oDw:{k}", "sample": per})
+        # index boundaries of both dictionaries: first and last entries
+        u.append({"kind": "oD_words", "seed": f"C15:{seed}:oDw:first", "lo": 0, "hi": 200})
+        u.append({"kind": "oD_words", "seed": f"C15:{seed}:oDw:last", "lo": -200, "hi": None})
+    u.append({"kind": "oD_words", "seed": f"C15:{seed}:oDw:small", "small": True})
     n_rand, per = (8000, 500) if q else (400000, 2500)
     for k in range(n_rand // per):
         u.append({"kind": "oD_rand", "seed": f"C15:{seed}:oD:{k}", "n": per})
@@ -521,7 +525,14 @@ def _run_kind(acc, unit):
     elif k == "oD_words":
         words = _dictionary_words(acc)
         r = random.Random(unit["seed"])
-        if "sample" in unit:
+        if unit.get("small"):
+            try:
+                from vyxal import dictionary
+
+                chosen = [w for w in dictionary.small_dictionary if isinstance(w, str)]
+            except Exception:  # noqa
+                chosen = []
+        elif "sample" in unit:
             chosen = [r.choice(words) for _ in range(unit["sample"])]
         else:
             chosen = words[unit["lo"]:unit["hi"]]
